@@ -317,7 +317,11 @@ theorem probeStep_ret (cfg : Config) (inuse : List (Bytes × List User)) (fs : F
     simp only [] at hr
     split at hr
     · simp only [run_pure] at hr
-      injection hr with h1 _; injection h1 with h1; subst h1; exact h
+      injection hr with h1 _; injection h1 with h1; subst h1
+      -- (fix e3cb7aa) the record of a layer in the error state gets its mounts and users
+      obtain ⟨e1, e2, _⟩ := probeErr_key cfg inuse d name l
+      have hn : l.name = name := (findLayer_mem hf).2
+      exact wf_setLayer_same h l _ (by rw [show (probeErr cfg inuse d name l).name = l.name from e1, hn]; exact hf) e2
     · obtain ⟨l', w1, h1, h2⟩ := bind_ok_inv _ _ _ _ _ hr
       rw [run_liftRes] at h1
       injection h1 with h1 _
